@@ -4,6 +4,7 @@
 -/
 import AHP.Model.Lexer
 import AHP.Model.Tree
+import AHP.Lemmas.LexRaw
 namespace AHP
 
 /-! ### rendering of tokens (the serialisers' output grammar) -/
@@ -88,6 +89,54 @@ def isData : Token → Bool | .data _ => true | _ => false
 def NoAdjData : List Token → Prop
   | t₁ :: t₂ :: ts => ¬ (isData t₁ = true ∧ isData t₂ = true) ∧ NoAdjData (t₂ :: ts)
   | _ => True
+
+/-! ### the well-formedness predicates are decidable (used by the concrete non-vacuity instances) -/
+
+instance : (v : Str) → Decidable (ValueOK v)
+  | [] => isTrue trivial
+  | [_] => isTrue trivial
+  | c :: d :: r =>
+    have := instDecidableValueOK (d :: r)
+    inferInstanceAs (Decidable (_ ∧ _))
+
+instance : (c : Str) → Decidable (CommentOK c)
+  | [] => isTrue trivial
+  | [c] => inferInstanceAs (Decidable (c ≠ '-'))
+  | c :: d :: r =>
+    have := instDecidableCommentOK (d :: r)
+    inferInstanceAs (Decidable (_ ∧ _))
+
+instance (n : Str) : Decidable (NameOK n) := inferInstanceAs (Decidable (_ ∧ _ ∧ _))
+
+instance : (a : Attr) → Decidable (AttrOK a)
+  | (n, none) => inferInstanceAs (Decidable (NameOK n))
+  | (n, some v) => inferInstanceAs (Decidable (NameOK n ∧ ValueOK v ∧ ¬ (v.isEmpty = true ∧ binaryAttrs.contains n = true)))
+
+instance headAlphaDec : (n : Str) → Decidable (∃ c cs, n = c :: cs ∧ isAlpha c = true)
+  | [] => isFalse (by rintro ⟨c, cs, h, _⟩; cases h)
+  | c :: cs => decidable_of_iff (isAlpha c = true)
+      ⟨fun h => ⟨c, cs, rfl, h⟩, fun ⟨c', cs', e, ha⟩ => by cases e; exact ha⟩
+
+instance hexRefDec : (n : Str) →
+    Decidable (∃ x hs, n = x :: hs ∧ (x = 'x' ∨ x = 'X') ∧ hs ≠ [] ∧ ∀ c ∈ hs, isHex c = true)
+  | [] => isFalse (by rintro ⟨x, hs, h, _⟩; cases h)
+  | x :: hs => decidable_of_iff ((x = 'x' ∨ x = 'X') ∧ hs ≠ [] ∧ ∀ c ∈ hs, isHex c = true)
+      ⟨fun h => ⟨x, hs, rfl, h⟩, fun ⟨x', hs', e, h⟩ => by cases e; exact h⟩
+
+instance (n : Str) : Decidable (TagNameOK n) := inferInstanceAs (Decidable (_ ∧ _ ∧ _))
+
+instance : (t : Token) → Decidable (TokOK t)
+  | .start n a => inferInstanceAs (Decidable (TagNameOK n ∧ isRawText n = false ∧ ∀ x ∈ a, AttrOK x))
+  | .startend n a => inferInstanceAs (Decidable (TagNameOK n ∧ ∀ x ∈ a, AttrOK x))
+  | .end_ n => inferInstanceAs (Decidable (TagNameOK n))
+  | .data s => inferInstanceAs (Decidable (s = ['<'] ∨ s = ['&'] ∨ (s ≠ [] ∧ ∀ c ∈ s, (c ≠ '<' ∧ c ≠ '&'))))
+  | .entity n => inferInstanceAs (Decidable ((∃ c cs, n = c :: cs ∧ isAlpha c = true) ∧ ∀ c ∈ n, isEntCh c = true))
+  | .charref n => inferInstanceAs (Decidable ((n ≠ [] ∧ ∀ c ∈ n, isDigit c = true) ∨
+      (∃ x hs, n = x :: hs ∧ (x = 'x' ∨ x = 'X') ∧ hs ≠ [] ∧ ∀ c ∈ hs, isHex c = true)))
+  | .comment c => inferInstanceAs (Decidable (CommentOK c))
+  | .decl d => inferInstanceAs (Decidable (lower (d.take 7) = "doctype".toList ∧ '>' ∉ d))
+  | .pi p => inferInstanceAs (Decidable ('>' ∉ p))
+  | .unknownDecl _ => isFalse (fun h => h)
 
 /-! ### attribute values -/
 
@@ -554,6 +603,40 @@ theorem lexOne_render (t : Token) (h : TokOK t) (rest : Str) (hf : Follows t res
     simp only [List.cons_append] at hsp
     simp [lexOne, hca, hsp, hA, hlow]
 
+/-- the token block a raw-text element (`script` / `style`) is read as: start tag, the content as ONE data token
+    (none when the content is empty), end tag -/
+def rawBlock (n : Str) (a : List Attr) (raw : Str) : List Token :=
+  if raw.isEmpty then [.start n a, .end_ n] else [.start n a, .data raw, .end_ n]
+
+/-- **raw-text elements.**  The start tag of `script` / `style`, content that nowhere matches the closing
+    expression (`RawOK`: may contain `<`, `&`, other tags, comments, anything else), and the closing tag are read
+    by ONE step of the lexer as start tag, one data token, end tag. -/
+theorem lexOne_render_raw (n : Str) (a : List Attr) (raw rest : Str) (hraw : isRawText n = true)
+    (hattrs : ∀ x ∈ a, AttrOK x) (hok : RawOK n raw) :
+    ∀ k, (renderTok (.start n a) ++ (raw ++ (renderTok (.end_ n) ++ rest))).length < k →
+      lexOne k (renderTok (.start n a) ++ (raw ++ (renderTok (.end_ n) ++ rest))) = some (rawBlock n a raw, rest) := by
+  intro k hk
+  obtain ⟨hlow, hne, hlt, hw, ⟨c, cs, rfl, hca⟩, hall⟩ := rawName_facts n hraw
+  generalize hrest' : raw ++ (renderTok (.end_ (c :: cs)) ++ rest) = rest' at hk ⊢
+  have hrest'' : rest' = raw ++ '<' :: '/' :: ((c :: cs) ++ '>' :: rest) := by
+    rw [← hrest']; simp [renderTok]
+  obtain ⟨tc, tr, htail, _, _⟩ := tail_head a hattrs false rest'
+  have hsp : span isTagCh ((c :: cs) ++ ' ' :: tc :: tr) = (c :: cs, ' ' :: tc :: tr) :=
+    span_append _ _ _ _ hall tagCh_facts.1
+  have hlen : (renderAttrs' a ++ closer false ++ rest').length < k := by
+    simp [renderTok, renderAttrs_eq, closer] at hk ⊢; omega
+  have hA := lexAttrs_render a hattrs false rest' k hlen
+  have hlenR : rest'.length < k := by simp at hlen; omega
+  have hR : lexRaw (c :: cs) k rest' = some (raw, rest) := by
+    rw [hrest''] at hlenR ⊢
+    exact lexRaw_render (c :: cs) raw rest hlow hne hlt hw hok k hlenR
+  have hrender : renderTok (.start (c :: cs) a) ++ rest' = '<' :: c :: (cs ++ (renderAttrs' a ++ closer false ++ rest')) := by
+    simp [renderTok, renderAttrs_eq, closer]
+  rw [hrender, htail]
+  rw [htail] at hA
+  simp only [List.cons_append] at hsp
+  simp only [lexOne, hca, if_true, hsp, hA, hlow, Bool.false_eq_true, if_false, hraw, hR, rawBlock]
+
 /-! ### whole token lists -/
 
 theorem renderToks_append (xs ys : List Token) : renderToks (xs ++ ys) = renderToks xs ++ renderToks ys := by
@@ -569,19 +652,62 @@ theorem renderTok_ne_nil (t : Token) (h : TokOK t) : renderTok t ≠ [] := by
   · exact h.1
 
 /-- a token list in the serialiser's image: every token well formed and followed by something that keeps
-    it a token of its own -/
-def ListOK : List Token → Prop
-  | [] => True
-  | t :: ts => TokOK t ∧ Follows t (renderToks ts) ∧ ListOK ts
+    it a token of its own (`cons`); a raw-text element (`script` / `style`) is its start tag, at most one data
+    token whose text nowhere matches the element's closing expression `</ ws* name ws* >` (`RawOK` — it may
+    contain `<`, `&`, tags, comments, references: none of them is markup there), and its end tag
+    (`raw` / `rawEmpty`) -/
+inductive ListOK : List Token → Prop
+  | nil : ListOK []
+  | cons {t : Token} {ts : List Token} : TokOK t → Follows t (renderToks ts) → ListOK ts → ListOK (t :: ts)
+  | raw {n : Str} {a : List Attr} {raw : Str} {ts : List Token} :
+      isRawText n = true → (∀ x ∈ a, AttrOK x) → raw ≠ [] → RawOK n raw → ListOK ts →
+      ListOK (.start n a :: .data raw :: .end_ n :: ts)
+  | rawEmpty {n : Str} {a : List Attr} {ts : List Token} :
+      isRawText n = true → (∀ x ∈ a, AttrOK x) → ListOK ts → ListOK (.start n a :: .end_ n :: ts)
 
-theorem ListOK.tokOK {ts : List Token} (h : ListOK ts) : ∀ t ∈ ts, TokOK t := by
-  induction ts with
+/-- the tokens of a raw-text element that `TokOK` (the grammar outside raw text) does not describe: the
+    element's start tag and its content -/
+def RawTok : Token → Prop
+  | .start n a => isRawText n = true ∧ ∀ x ∈ a, AttrOK x
+  | .data s => s ≠ []
+  | _ => False
+
+theorem rawName_tagNameOK (n : Str) (h : isRawText n = true) : TagNameOK n := by
+  obtain ⟨hlow, _, _, _, hex, hall⟩ := rawName_facts n h
+  exact ⟨hex, hall, hlow⟩
+
+/-- every token of a list in the serialiser's image is well formed, or is the start tag / content of a
+    raw-text element -/
+theorem ListOK.tokOK {ts : List Token} (h : ListOK ts) : ∀ t ∈ ts, TokOK t ∨ RawTok t := by
+  induction h with
   | nil => intro t ht; simp at ht
-  | cons x xs ih =>
+  | cons h1 _ _ ih =>
     intro t ht
     rcases List.mem_cons.mp ht with e | e
-    · rw [e]; exact h.1
-    · exact ih h.2.2 t e
+    · rw [e]; exact Or.inl h1
+    · exact ih t e
+  | raw hr ha hne _ _ ih =>
+    intro t ht
+    simp only [List.mem_cons] at ht
+    rcases ht with e | e | e | e
+    · rw [e]; exact Or.inr ⟨hr, ha⟩
+    · rw [e]; exact Or.inr hne
+    · rw [e]; exact Or.inl (rawName_tagNameOK _ hr)
+    · exact ih t e
+  | rawEmpty hr ha _ ih =>
+    intro t ht
+    simp only [List.mem_cons] at ht
+    rcases ht with e | e | e
+    · rw [e]; exact Or.inr ⟨hr, ha⟩
+    · rw [e]; exact Or.inl (rawName_tagNameOK _ hr)
+    · exact ih t e
+
+/-- in particular no `<![ … ]>` declaration occurs -/
+theorem ListOK.no_unknownDecl {ts : List Token} (h : ListOK ts) (x : Str) : Token.unknownDecl x ∉ ts := by
+  intro hm
+  rcases h.tokOK _ hm with h1 | h1
+  · exact absurd h1 (by simp [TokOK])
+  · exact absurd h1 (by simp [RawTok])
 
 /-- a token that is not a data run renders to something that starts with `<` or `&` -/
 theorem render_head (t : Token) (h : TokOK t) (hd : isData t = false) :
@@ -602,6 +728,18 @@ theorem render_head (t : Token) (h : TokOK t) (hd : isData t = false) :
 def NotSingleton : Token → Prop
   | .data s => s ≠ ['<'] ∧ s ≠ ['&']
   | _ => True
+
+instance : (t : Token) → Decidable (NotSingleton t)
+  | .data s => inferInstanceAs (Decidable (s ≠ ['<'] ∧ s ≠ ['&']))
+  | .start _ _ => isTrue trivial
+  | .startend _ _ => isTrue trivial
+  | .end_ _ => isTrue trivial
+  | .entity _ => isTrue trivial
+  | .charref _ => isTrue trivial
+  | .comment _ => isTrue trivial
+  | .decl _ => isTrue trivial
+  | .pi _ => isTrue trivial
+  | .unknownDecl _ => isTrue trivial
 
 theorem renderToks_follows (t : Token) (hns : NotSingleton t) (ts : List Token) (hts : ∀ x ∈ ts, TokOK x)
     (hadj : NoAdjData (t :: ts)) : Follows t (renderToks ts) := by
@@ -624,21 +762,53 @@ theorem renderToks_follows (t : Token) (hns : NotSingleton t) (ts : List Token) 
       · exact ⟨r ++ renderToks ts2, Or.inr (by simp [renderToks, hr])⟩
   | _ => trivial
 
+theorem renderToks_raw (n : Str) (a : List Attr) (raw : Str) (ts : List Token) :
+    renderToks (rawBlock n a raw ++ ts)
+      = renderTok (.start n a) ++ (raw ++ (renderTok (.end_ n) ++ renderToks ts)) := by
+  unfold rawBlock
+  by_cases h : raw.isEmpty = true
+  · have : raw = [] := by simpa using h
+    subst this
+    simp [renderToks]
+  · simp [h, renderToks, renderTok]
+
+/-- one step of `lexN` over a raw-text element -/
+theorem lexN_raw_step (n : Str) (a : List Attr) (raw : Str) (ts : List Token) (hr : isRawText n = true)
+    (ha : ∀ x ∈ a, AttrOK x) (hok : RawOK n raw)
+    (ih : ∀ k, (renderToks ts).length < k → lexN k (renderToks ts) = some ts) :
+    ∀ k, (renderToks (rawBlock n a raw ++ ts)).length < k →
+      lexN k (renderToks (rawBlock n a raw ++ ts)) = some (rawBlock n a raw ++ ts) := by
+  intro k hk
+  rw [renderToks_raw] at hk ⊢
+  cases k with
+  | zero => simp at hk
+  | succ k =>
+    have hone := lexOne_render_raw n a raw (renderToks ts) hr ha hok (k + 1) hk
+    have hlen : (renderToks ts).length < k := by
+      simp [renderTok] at hk; omega
+    have hlt : (renderToks ts).length
+        < (renderTok (.start n a) ++ (raw ++ (renderTok (.end_ n) ++ renderToks ts))).length := by
+      simp [renderTok]; omega
+    have hnn : (renderTok (.start n a) ++ (raw ++ (renderTok (.end_ n) ++ renderToks ts))).isEmpty = false := by
+      simp [renderTok]
+    unfold lexN
+    rw [hnn]
+    simp only [Bool.false_eq_true, if_false, hone, hlt, if_true, ih k hlen, Option.map]
+
 /-- **lexing the rendering of a well-formed token list gives the list back** -/
 theorem lexN_renderToks (ts : List Token) (h : ListOK ts) :
     ∀ k, (renderToks ts).length < k → lexN k (renderToks ts) = some ts := by
-  induction ts with
+  induction h with
   | nil =>
     intro k hk
     cases k with
     | zero => simp at hk
     | succ k => simp [renderToks, lexN]
-  | cons t ts ih =>
+  | @cons t ts ht hf hts ih =>
     intro k hk
     cases k with
     | zero => simp at hk
     | succ k =>
-      obtain ⟨ht, hf, hts⟩ := h
       have hne := renderTok_ne_nil t ht
       have hpos : 0 < (renderTok t).length := List.length_pos_iff.mpr hne
       have hlen : (renderToks ts).length < k := by
@@ -648,7 +818,17 @@ theorem lexN_renderToks (ts : List Token) (h : ListOK ts) :
         cases hr : renderTok t with
         | nil => exact absurd hr hne
         | cons c r => rfl
-      simp [renderToks, lexN, hnn, hone, hne, ih hts k hlen]
+      simp [renderToks, lexN, hnn, hone, hne, ih k hlen]
+  | @raw n a raw ts hr ha hne hok _ ih =>
+    have hb : rawBlock n a raw = [.start n a, .data raw, .end_ n] := by
+      have : raw.isEmpty = false := by cases raw <;> simp_all
+      simp [rawBlock, this]
+    have := lexN_raw_step n a raw ts hr ha hok ih
+    rw [hb] at this
+    exact this
+  | @rawEmpty n a ts hr ha _ ih =>
+    have := lexN_raw_step n a [] ts hr ha trivial ih
+    exact this
 
 theorem lexStrict_renderToks (ts : List Token) (h : ListOK ts) :
     lexStrict (renderToks ts) = some ts :=
@@ -658,14 +838,14 @@ theorem lexStrict_renderToks (ts : List Token) (h : ListOK ts) :
 theorem listOK_of_noAdjData (ts : List Token) (h : ∀ t ∈ ts, TokOK t) (hns : ∀ t ∈ ts, NotSingleton t)
     (hadj : NoAdjData ts) : ListOK ts := by
   induction ts with
-  | nil => trivial
+  | nil => exact .nil
   | cons t ts ih =>
     have hts : ∀ x ∈ ts, TokOK x := fun x hx => h x (by simp [hx])
     have hadj' : NoAdjData ts := by
       cases ts with
       | nil => trivial
       | cons t2 ts2 => exact hadj.2
-    exact ⟨h t (by simp), renderToks_follows t (hns t (by simp)) ts hts hadj,
-      ih hts (fun x hx => hns x (by simp [hx])) hadj'⟩
+    exact .cons (h t (by simp)) (renderToks_follows t (hns t (by simp)) ts hts hadj)
+      (ih hts (fun x hx => hns x (by simp [hx])) hadj')
 
 end AHP
